@@ -1,12 +1,12 @@
 SPECIFICATION Spec
 CONSTANTS
   N = 1
-  MaxTime = 16
+  MaxTime = 22
   MaxSkew = 1
-  Budget = 2
+  Budget = 1
   Variant = "code"
-  Faults <- AllFaults
-  MaxToggle = 3
+  Faults <- WriteFaults
+  MaxToggle = 1
   Removal = FALSE
   Remotes <- RemotesNone
   MaxWaits = 99
